@@ -14,6 +14,7 @@ use crate::{
 use crate::SecretKey;
 
 use k256::{
+    elliptic_curve::ops::Reduce,
     EncodedPoint,
     ecdsa::{
         RecoveryId,
@@ -48,8 +49,14 @@ pub fn public_key(secret: &SecretKey) -> PublicKey {
 pub fn sign(secret: &SecretKey, message: &Message) -> [u8; 64] {
     let sk: k256::SecretKey = secret.into();
     let sk: ecdsa::SigningKey<k256::Secp256k1> = sk.into();
+    // RFC 6979 derives the nonce from the message reduced modulo the group order
+    // (`bits2octets`), which is what the `secp256k1` backend does. The `ecdsa` crate
+    // feeds the unreduced bytes to the nonce generation, so reduce the message first
+    // to make both backends produce the same signature for messages >= n.
+    let prehash =
+        <k256::Scalar as Reduce<k256::U256>>::reduce_bytes(&(**message).into()).to_bytes();
     let (signature, _recid) = sk
-        .sign_prehash_recoverable(&**message)
+        .sign_prehash_recoverable(&prehash)
         .expect("Infallible signature operation");
 
     // TODO: this is a hack to get the recovery id. The signature should be normalized
